@@ -2,6 +2,8 @@
 
 op lines (formats documented in lean/VerifModel/Driver/Nc.lean):
   ncvars <dims> <vars> <attrs>            a NetCDF file, as netCDF4 shows it  -> canonical dataset line
+  ncdata <dims> <vars> <attrs>            the same file under verif.data.Data([input]): verified times / lead times /
+                                          location ids and get_scores(Obs|Fcst, 0) -> T=..;L=..;X=..;obs=..;fcst=.. | ERR
   nctext <seed> <dims> <vars> <attrs>     the same numbers as NetCDF (named *.txt) and as text (named *.nc), both read
                                           with get_input, all attributes and a handful of scores compared -> same | diff[..]
   text2nc <seed> <dataset>                text file carrying <dataset> -> scripts/text2nc.py -> canonical line of the result
@@ -25,7 +27,8 @@ ID = "C10"
 TARGETS = ["Proofs.C10"]
 GEN_PREFIXES = ["clean."]
 THEOREMS = {"Proofs.C10": ["VerifModel.C10." + t for t in [
-    "C10_clean_assemble", "C10_same_dataset",
+    "C10_clean_assemble", "C10_same_dataset", "C10_missing_coordinate", "C10_nan_coordinate_unverified",
+    "C10_nan_metadata_in_no_range",
     "C10_text2nc", "C10_detect", "C10_valid_iff", "C10_optional_absent", "C10_optional_present"]]}
 TRUSTED_BASE = [
     "Lean 4.33 kernel; axioms propext, Classical.choice, Quot.sound only",
@@ -34,14 +37,19 @@ TRUSTED_BASE = [
     "float32 / int32 rounding on storing: the parameter R of text2nc; the theorem is about values R leaves alone, the "
     "harness generates float32-representable data (multiples of 1/8 within +-1024, integer ids, unix times as doubles)",
     "Model/NcAssemble.lean: hand-written model of get_input, Netcdf.is_valid, the Netcdf reader and scripts/text2nc.py, "
-    "tied to the real code by the nc.read / nc.text2nc / nc.detect correspondence streams on every run; util.clean is the "
-    "machine-translated cleaner of C04",
+    "tied to the real code by the nc.read / nc.data / nc.text2nc / nc.detect correspondence streams on every run; util.clean "
+    "is the machine-translated cleaner of C04; Model/Data.lean (Data.__init__ / get_scores, the subject of C01-C03) for what "
+    "Data does with a NaN coordinate, tied to the NetCDF reader by the nc.data stream",
     "Spec/Dataset.lean + Spec/NcLayout.lean: my reading of the Input attributes and of the documented NetCDF layout",
     "text side: verif.input.Text on files written by this harness (the text reader itself is C09's subject)",
 ]
 ASSUMPTIONS = [
     "WF table: no stored number is -999 or above 1e30 (those ARE the missing-value encodings); other fields have names that "
-    "the reader does not reserve; coordinates are not missing",
+    "the reader does not reserve; any entry of any field AND of any coordinate column may be missing",
+    "cross-format agreement (nc.text) for a missing COORDINATE entry is stated on the part of the dataset at non-missing "
+    "times / lead times / location ids (the rest is in no verification) plus the scores; where the text reader deviates "
+    "(missing lat / lon / altitude token read as 0, missing id token replaced by a new id, missing date token: crash) the "
+    "check prints KNOWN-FINDING (known_findings.txt)",
     "text2nc: float32-representable data, integer location ids, obs and fcst columns present, units in display form "
     "($..$ or %)",
     "files without location ids: locations are identified by their metadata (ids are synthetic in both readers)",
@@ -50,16 +58,26 @@ RULE = ("nc.read: generated tables (1-3 times / lead times / locations, unsorted
         "present or absent, thresholds+cdf, quantiles+x, ensemble, pit, other fields, attributes) written with netCDF4 in "
         "shuffled variable order, f4/f8/i4 types, missing cells encoded per cell as fill/masked, NaN, -999, float32(1e31) "
         "or +inf, boundary values 1e30 (kept) and nextafter(1e30) (missing), ignored variables named like regular "
-        "columns; nc.text: the same table as a text file (shuffled rows/columns, date+hour or unixtime, leadtime/offset, "
+        "columns; for every table a second file in which a random non-empty set of the COORDINATE variables (time, leadtime, "
+        "location, lat, lon, altitude, threshold, quantile) has 1..all entries missing, each in one of the same encodings "
+        "(masked / explicit _FillValue, NaN, -999, float32(1e31), +inf, nextafter(1e30); i4 variables: masked, -999); nc.data: "
+        "those files under verif.data.Data (verified dimensions, get_scores of obs and fcst; all entries missing = error exit); "
+        "nc.text: the same table as a text file (shuffled rows/columns, date+hour or unixtime, leadtime/offset, "
         "location/id, altitude/elev, every missing token) with the file names swapped (*.txt holds NetCDF, *.nc holds "
-        "text): all attributes and get_scores / mae / ets on both inputs compared exactly; nc.text2nc: text file -> "
+        "text): all attributes and get_scores / mae / ets on both inputs compared exactly; every second table also with ONE "
+        "coordinate column (time, leadtime, location, lat, lon, altitude) holding missing entries = rows with a missing "
+        "token in that column (unixtime or date+hour); nc.text2nc: text file -> "
         "scripts/text2nc.py (in-process, every 25th as a subprocess) -> read back; nc.detect: content variants x file "
         "extensions incl. malformed NetCDF files; non-trivial = some field holds a finite value")
 EXHAUSTIVE = {"quick": False, "thorough": False}
 LEVEL_TEXT = ("Lean theorems: every attribute of the assembled NetCDF input is util.clean of the stored variable (masked, NaN, "
               "-999, >1e30 -> NaN, anything else unchanged: C04_clean); for every well-formed table T and every choice of "
               "missing-value encodings the reader's dataset for the documented NetCDF layout of T equals Spec.datasetOf T in "
-              "all attributes (absent lat / lon / altitude read 0); reading back what text2nc writes returns the dataset "
+              "all attributes (absent lat / lon / altitude read 0), coordinate variables included: a missing entry of time / "
+              "leadtime / location / lat / lon / altitude / threshold / quantile reads NaN, and in every Data object built on the "
+              "file the position of a NaN time / lead time / location id is in none of the index lists the arrays are cut with "
+              "(its cases take part in no verification; no verified dimension value is NaN); a NaN lat / lon / altitude is "
+              "inside no range; reading back what text2nc writes returns the dataset "
               "exactly, in every attribute incl. ensemble members and x0 / x1, for every rounding that leaves its numbers "
               "alone; the get_input decision table over content predicates (the function has no name argument); "
               "required dims/vars and the defaults of absent optional variables. Partial: the byte level of NetCDF, "
@@ -324,6 +342,54 @@ def oracle_dataset(dims, variables, attrs):
             "x0": from_xr(at["x0"]) if "x0" in at else None, "x1": from_xr(at["x1"]) if "x1" in at else None}
 
 
+def oracle_data(dims, variables, attrs):
+    """what verif.data.Data([file]) verifies (from the Data docstrings / README: the verified times, lead times and
+    locations are the coordinate values the input has; a missing coordinate value is no value: "Remove nan values",
+    data.py:674; nothing to verify = error exit): the non-missing coordinate values ascending, and per field the cells at
+    those coordinates (missing or infinite cell = NaN); 'ERR' when a dimension has no non-missing value"""
+    D = oracle_dataset(dims, variables, attrs)
+
+    def keep(v):
+        vals = sorted(set(x for x in v if not math.isnan(x)))
+        return vals, [list(v).index(x) for x in vals]
+    tv, ti = keep(D["times"])
+    lv, li = keep(D["leads"])
+    xv, xi = keep([l[0] for l in D["locs"]])
+    if not tv or not lv or not xv:
+        return "ERR"
+
+    def fld(a):
+        if a is None:
+            return "ERR"
+        a = np.array(a, float)[ti][:, li][:, :, xi]
+        a[np.isinf(a)] = np.nan
+        return xvec(a.flatten())
+    return "T=%s;L=%s;X=%s;obs=%s;fcst=%s" % (xvec(tv), xvec(lv), xvec(xv), fld(D["obs"]), fld(D["fcst"]))
+
+
+def valid_part(D):
+    """the dataset restricted to the non-missing times / lead times / location ids (what can be verified at all)"""
+    kt = [i for i, t in enumerate(D["times"]) if not math.isnan(t)]
+    kl = [i for i, t in enumerate(D["leads"]) if not math.isnan(t)]
+    kx = [i for i, l in enumerate(D["locs"]) if not math.isnan(l[0])]
+    if len(kt) == len(D["times"]) and len(kl) == len(D["leads"]) and len(kx) == len(D["locs"]):
+        return D
+    nt, nl, nx = len(D["times"]), len(D["leads"]), len(D["locs"])
+
+    def f3(a):
+        if a is None or a.ndim < 3 or a.shape[:3] != (nt, nl, nx):
+            return a
+        return np.take(np.take(np.take(a, kt, axis=0), kl, axis=1), kx, axis=2)
+    E = dict(D)
+    E["times"] = [D["times"][i] for i in kt]
+    E["leads"] = [D["leads"][i] for i in kl]
+    E["locs"] = [D["locs"][i] for i in kx]
+    for n in ("obs", "fcst", "pit", "ens", "cdf", "x"):
+        E[n] = f3(D[n])
+    E["others"] = {n: f3(a) for n, a in D["others"].items()}
+    return E
+
+
 def _same(a, b):
     if a is None or b is None:
         return a is None and b is None
@@ -405,8 +471,9 @@ def write_text(D, path, rng):
     time encodings, leadtime/offset, location/id, altitude/elev, p/q/e columns, other fields, # metadata lines"""
     import verif.util
     has = D.get("has", {"location": True, "lat": True, "lon": True, "altitude": True})
-    whole_hours = all(float(t).is_integer() and int(t) % 3600 == 0 and t >= 0 for t in D["times"])
+    whole_hours = all(float(t).is_integer() and int(t) % 3600 == 0 and t >= 0 for t in D["times"] if not math.isnan(t))
     use_date = whole_hours and rng.random() < 0.5
+    D["tcol"] = "date" if use_date else "unixtime"            # (reported in the signature of a cross-format difference)
     cols = (["date", "hour"] if use_date else ["unixtime"]) + [rng.choice(["leadtime", "offset"])]
     if has["location"]:
         cols.append(rng.choice(["location", "id"]))
@@ -438,11 +505,14 @@ def write_text(D, path, rng):
     for it, t in enumerate(D["times"]):
         for il, l in enumerate(D["leads"]):
             for ix, x in enumerate(D["locs"]):
-                vals = {"unixtime": "%d" % t, "leadtime": _num(l), "offset": _num(l), "location": _num(x[0]),
-                        "id": _num(x[0]), "lat": _num(x[1]), "lon": _num(x[2]), "altitude": _num(x[3]), "elev": _num(x[3])}
+                # a missing coordinate entry = a missing token in that column of every row of the slice
+                tm = math.isnan(t)
+                vals = {"unixtime": _mtok(rng) if tm else "%d" % t, "leadtime": _cnum(l, rng), "offset": _cnum(l, rng),
+                        "location": _cnum(x[0], rng), "id": _cnum(x[0], rng), "lat": _cnum(x[1], rng), "lon": _cnum(x[2], rng),
+                        "altitude": _cnum(x[3], rng), "elev": _cnum(x[3], rng)}
                 if use_date:
-                    vals["date"] = "%d" % verif.util.unixtime_to_date(int(t))
-                    vals["hour"] = "%d" % ((int(t) % 86400) // 3600)
+                    vals["date"] = _mtok(rng) if tm else "%d" % verif.util.unixtime_to_date(int(t))
+                    vals["hour"] = "0" if tm else "%d" % ((int(t) % 86400) // 3600)
                 for w, g in data:
                     vals[w] = _tok(float(g(it, il, ix)), rng)
                 rows.append(rng.choice([" ", "  ", "\t"]).join(vals[c] for c in order))
@@ -466,21 +536,41 @@ def _num(v):
     return "%d" % int(v) if (v == int(v) and abs(v) < 1e15) else repr(v)
 
 
+MISSING_TOKENS = ["-999", "nan", "NA", "-999.0", "NaN", "."]
+
+
+def _mtok(rng):
+    return rng.choice(MISSING_TOKENS)
+
+
+def _cnum(v, rng):
+    """a coordinate value as a text token; a missing one as one of the missing-value tokens"""
+    return _mtok(rng) if math.isnan(float(v)) else _num(v)
+
+
 def text_expressible(D):
     """can a text file carry this table and be read back to the same dataset? (the quantifier of C10)"""
     coords = list(D["times"]) + list(D["leads"]) + list(D["thr"]) + list(D["qtl"]) + [v for l in D["locs"] for v in l]
-    if any(math.isnan(v) or math.isinf(v) for v in coords):
+    if any(math.isinf(v) for v in coords):
         return False
-    if any(not float(t).is_integer() for t in D["times"]):
+    if any(math.isnan(v) for v in list(D["thr"]) + list(D["qtl"])):
+        return False        # thresholds / quantile levels are header words in a text file: they cannot be missing
+    if any(not float(t).is_integer() for t in D["times"] if not math.isnan(t)):
         return False
+
+    def distinct(v):
+        v = [x for x in v if not math.isnan(x)]
+        return len(set(v)) == len(v)
     for k in ("times", "leads", "thr", "qtl"):
-        if len(set(D[k])) != len(D[k]):
+        if not distinct(D[k]):
             return False
     has = D["has"]
     if has["location"]:
-        if len(set(l[0] for l in D["locs"])) != len(D["locs"]):
+        if not distinct([l[0] for l in D["locs"]]):
             return False
     else:
+        if any(math.isnan(v) for l in D["locs"] for v in l[1:]):
+            return False    # no ids: the metadata IS the identity of a location
         key = [(l[1] if has["lat"] else 0.0, l[2] if has["lon"] else 0.0, l[3] if has["altitude"] else 0.0) for l in D["locs"]]
         if len(set(key)) != len(key):
             return False
@@ -498,6 +588,14 @@ def text_expressible(D):
     if u is not None and ("$" in u):
         return False
     return True
+
+
+def coord_missing(D):
+    """names of the coordinate variables of table D that hold missing entries"""
+    cols = [("time", D["times"]), ("leadtime", D["leads"])] + [
+        (n, [l[j] for l in D["locs"]]) for j, n in enumerate(("location", "lat", "lon", "altitude"))] + [
+        ("threshold", D["thr"]), ("quantile", D["qtl"])]
+    return [n for n, v in cols if any(math.isnan(x) for x in v)]
 
 
 def rekey_by_meta(D):
@@ -590,6 +688,39 @@ def impl_ncvars(op):
         os.remove(path)
 
 
+def impl_ncdata(op):
+    import verif.data
+    import verif.field
+    a = op.split(" ")
+    dims, variables, attrs = dec_nc(a[1], a[2], a[3])
+    path = fresh("data.nc")
+    write_nc(path, dims, variables, attrs, unlimited=(len(op) % 2 == 0))
+    try:
+        kind, inp = get_input(path)
+        if inp is None:
+            return kind
+        try:
+            if kind != "netcdf":
+                return "KIND:" + kind
+            try:
+                data = verif.data.Data([inp])
+            except SystemExit:
+                return "ERR"
+
+            def fld(f):
+                try:
+                    return xvec(np.array(data.get_scores(f, 0), float).flatten())
+                except SystemExit:
+                    return "ERR"
+            return "T=%s;L=%s;X=%s;obs=%s;fcst=%s" % (
+                xvec(np.array(data.times, float)), xvec(np.array(data.leadtimes, float)),
+                xvec([float(l.id) for l in data.locations]), fld(verif.field.Obs()), fld(verif.field.Fcst()))
+        finally:
+            close_input(inp)
+    finally:
+        os.remove(path)
+
+
 def impl_nctext(op):
     a = op.split(" ")
     rng = random.Random(int(a[1]))
@@ -600,18 +731,36 @@ def impl_nctext(op):
     pnc, ptx = fresh("netcdf_as.txt"), fresh("text_as.nc")
     write_nc(pnc, dims, variables, attrs, unlimited=rng.random() < 0.5)
     write_text(T, ptx, rng)
+    # the coordinate columns that hold missing entries (part of every signature: cross-format differences in a file
+    # with a missing coordinate are a different matter than differences in a complete file)
+    cm = coord_missing(T)
+    extra = {"cmiss": "+".join(cm), "tcol": T["tcol"]} if cm else {}
     knc, inc = get_input(pnc)
-    ktx, itx = get_input(ptx)
+    itx = None
     try:
+        try:
+            ktx, itx = get_input(ptx)
+        except Exception as e:
+            if not cm:
+                raise
+            return "diff[%s] NetCDF vs text: the text reader raised %s on the text file (missing %s token) ;;" % (
+                _sig_str(dict(extra, kind="text-crash", exc=type(e).__name__)), type(e).__name__, extra["cmiss"])
         if knc != "netcdf" or ktx != "text":
             return "diff[kind:detect] NetCDF content in %s read as %s, text content in %s read as %s" % (
                 os.path.basename(pnc), knc, os.path.basename(ptx), ktx)
-        A, B = from_input(inc), from_input(itx)
+        # cases at a missing time / lead time / location id are in no verification: the datasets are compared on the rest
+        A, B = valid_part(from_input(inc)), valid_part(from_input(itx))
         has_ids = T["has"]["location"]
         if not has_ids:
             A, B = rekey_by_meta(A), rekey_by_meta(B)
         ctx = {"altitude": "present" if T["has"]["altitude"] else "absent"}
         diffs = diff_datasets(A, B, ctx)
+        if cm:
+            # a difference in the very metadata column that has the missing entry is reported after all others
+            own = {"lat": "lat", "lon": "lon", "altitude": "elev"}
+            mine = [own[c] for c in cm if c in own]
+            diffs = [(dict(s_, **extra), m) for s_, m in diffs]
+            diffs.sort(key=lambda d: d[0]["kind"] == "locmeta" and d[0].get("field") in mine)
         if not diffs:
             sa = score_lines(inc, T, has_ids or len(T["locs"]) == 1)
             sb = score_lines(itx, T, has_ids or len(T["locs"]) == 1)
@@ -619,10 +768,10 @@ def impl_nctext(op):
                 sa = sb = []            # synthetic ids differ by a permutation: pooled order is not comparable
             for x, y in zip(sa, sb):
                 if x != y:
-                    diffs.append(({"kind": "score"}, "NetCDF gives %s, text gives %s" % (x[:150], y[:150])))
+                    diffs.append((dict(extra, kind="score"), "NetCDF gives %s, text gives %s" % (x[:150], y[:150])))
                     break
             if len(sa) != len(sb):
-                diffs.append(({"kind": "score"}, "different number of results"))
+                diffs.append((dict(extra, kind="score"), "different number of results"))
         if not diffs:
             return "same"
         return " ".join("diff[%s] NetCDF vs text: %s ;;" % (_sig_str(s), m.replace(" ;;", "")) for s, m in diffs)
@@ -758,6 +907,8 @@ def impl(op):
         warnings.simplefilter("ignore")
         if head == "ncvars":
             return impl_ncvars(op)
+        if head == "ncdata":
+            return impl_ncdata(op)
         if head == "nctext":
             return impl_nctext(op)
         if head == "text2nc":
@@ -805,6 +956,18 @@ def judge(op, impl_out, spec_out):
             s, m = diffs[0]
             return (s, "NetCDF file vs its own numbers (expected vs read): " + m)
         return None
+    if a[0] == "ncdata":
+        dims, variables, attrs = dec_nc(a[1], a[2], a[3])
+        exp = oracle_data(dims, variables, attrs)
+        if impl_out != exp:
+            cm = coord_missing(table_of(dims, variables, attrs))
+            part = "status"
+            if exp != "ERR" and impl_out.startswith("T="):
+                part = [x.split("=")[0] for x, y in zip(impl_out.split(";"), exp.split(";")) if x != y][0]
+            return ({"kind": "data", "part": part, "cmiss": "+".join(cm) or "none"},
+                    "Data on the NetCDF file (missing entries in: %s): verifies %s, its numbers say %s"
+                    % (", ".join(cm) or "no coordinate", impl_out[:300], exp[:300]))
+        return None
     if a[0] == "nctext":
         if impl_out == "same":
             return None
@@ -838,6 +1001,8 @@ def judge(op, impl_out, spec_out):
 
 
 def nontrivial(op, out):
+    if op.startswith("ncdata"):
+        return out.startswith("T=") and any(ch.isdigit() for ch in out.split(";obs=")[1])
     if op.startswith("ncvars") or op.startswith("text2nc"):
         return out.startswith("T=") and any(ch.isdigit() for ch in out.split(";obs=")[1].split(";pit=")[0])
     return True
@@ -910,10 +1075,34 @@ def gen_table(rng):
 
 
 def _enc_missing(rng, dtype):
+    if dtype == "i4":
+        return rng.choice(["m", "-999"])          # an integer variable cannot hold NaN or a value above 1e30
     kinds = ["m", "nan", "-999", xr(F32_BIG)] + (["inf"] if rng.random() < 0.2 else [])
     if dtype == "f8":
         kinds.append(xr(float(np.nextafter(1e30, 2e30))))
     return rng.choice(kinds)
+
+
+COORD_OF = {"time": "times", "leadtime": "leads", "location": "ids", "lat": "lats", "lon": "lons", "altitude": "elevs",
+            "threshold": "thr", "quantile": "qtl"}
+
+
+def punch_coords(T, rng, kinds=None):
+    """copy of table T in which coordinate columns have missing entries (NaN): `kinds` = the columns (default: a random
+    non-empty set of the columns the table has), 1..all entries of each"""
+    avail = [n for n, k in COORD_OF.items() if T[k]]
+    if kinds is None:
+        kinds = [n for n in avail if rng.random() < 0.3] or [rng.choice(avail)]
+    U = dict(T)
+    for n in kinds:
+        if n not in avail:
+            continue
+        v = list(T[COORD_OF[n]])
+        cnt = len(v) if rng.random() < 0.1 else rng.randint(1, max(1, len(v) - 1))
+        for i in rng.sample(range(len(v)), cnt):
+            v[i] = float("nan")
+        U[COORD_OF[n]] = v
+    return U
 
 
 def table_to_nc(T, rng, text_compatible=True):
@@ -926,13 +1115,22 @@ def table_to_nc(T, rng, text_compatible=True):
         dims.append(("quantile", len(T["qtl"])))
     if T["ens"] is not None:
         dims.append(("ensemble_member", T["ens"].shape[3]))
-    variables = [("time", rng.choice(["f8", "i4"]), ["time"], [xr(t) for t in T["times"]]),
-                 ("leadtime", rng.choice(["f4", "f4", "f8"]), ["leadtime"], [xr(l) for l in T["leads"]])]
+    variables = []
+
+    def coord(name, dtype, vals):
+        # a coordinate variable; a missing entry (NaN in the table) in one of the encodings the data variables get
+        miss = any(math.isnan(v) for v in vals)
+        cells = [_enc_missing(rng, dtype) if math.isnan(v) else xr(v) for v in vals]
+        if miss and rng.random() < 0.35:
+            dtype += "@" + xr(rng.choice([12345.0, -7777.0] + ([] if dtype == "i4" else [0.0625])))   # explicit _FillValue
+        variables.append((name, dtype, [{"lat": "location", "lon": "location", "altitude": "location"}.get(name, name)], cells))
+    coord("time", rng.choice(["f8", "i4"]), T["times"])
+    coord("leadtime", rng.choice(["f4", "f4", "f8"]), T["leads"])
     if T["ids"] is not None:
-        variables.append(("location", "i4", ["location"], [xr(i) for i in T["ids"]]))
+        coord("location", rng.choice(["i4", "i4", "f8", "f4"]) if any(math.isnan(v) for v in T["ids"]) else "i4", T["ids"])
     for n, k in (("lat", "lats"), ("lon", "lons"), ("altitude", "elevs")):
         if T[k] is not None:
-            variables.append((n, "f4", ["location"], [xr(v) for v in T[k]]))
+            coord(n, "f4", T[k])
 
     def field(name, a, dn):
         dtype = rng.choice(["f4", "f4", "f4", "f8"])
@@ -951,27 +1149,20 @@ def table_to_nc(T, rng, text_compatible=True):
         if T[n] is not None:
             field(n, T[n], d3)
     if T["cdf"] is not None:
-        variables.append(("threshold", "f4", ["threshold"], [xr(t) for t in T["thr"]]))
+        coord("threshold", "f4", T["thr"])
         field("cdf", T["cdf"], d3 + ["threshold"])
     if T["x"] is not None:
-        variables.append(("quantile", "f4", ["quantile"], [xr(q) for q in T["qtl"]]))
+        coord("quantile", "f4", T["qtl"])
         field("x", T["x"], d3 + ["quantile"])
     if T["ens"] is not None:
         field("ensemble", T["ens"], d3 + ["ensemble_member"])
     for n, a in T["others"].items():
         field(n, a, d3)
     if not text_compatible:
-        # variables the reader must ignore (regular column names that mean nothing in NetCDF) and masked coordinates
+        # variables the reader must ignore (regular column names that mean nothing in NetCDF)
         if rng.random() < 0.5:
             variables.append((rng.choice(["elev", "id", "date", "offset", "unixtime", "hour"]), "f4", ["location"],
                               [xr(float(rng.randint(0, 50))) for _ in range(nx)]))
-        if rng.random() < 0.3:
-            j = rng.randrange(len(variables))
-            n, t, dn, cells = variables[j]
-            if n in ("leadtime", "lat", "lon", "altitude", "threshold") and cells:
-                cells = list(cells)
-                cells[rng.randrange(len(cells))] = rng.choice(["m", "nan", "-999"])
-                variables[j] = (n, t, dn, cells)
     rng.shuffle(variables)
     attrs = []
     if T["name"] is not None:
@@ -1025,9 +1216,22 @@ def gen_ops(tier, rng):
         if text_expressible(D):
             yield "nc.text", "nctext %d %s" % (rng.randrange(10 ** 6), enc)
         if k % 3 == 0:
-            # reader-only variants: ignored variables, masked coordinates, missing optional groups
+            # reader-only variants: ignored variables, missing optional groups
             d2, v2, a2 = table_to_nc(T, rng, text_compatible=False)
             yield "nc.read", "ncvars " + enc_nc(d2, v2, a2)
+        # missing entries in the COORDINATE variables: the reader, and Data on the file
+        dm, vm, am = table_to_nc(punch_coords(T, rng), rng, text_compatible=(k % 2 == 0))
+        encm = enc_nc(dm, vm, am)
+        yield "nc.read", "ncvars " + encm
+        yield "nc.data", "ncdata " + encm
+        if k % 4 == 0:
+            yield "nc.data", "ncdata " + enc
+        if k % 2 == 0:
+            # ... and against the text file whose rows have a missing token in ONE coordinate column
+            one = rng.choice(["time", "time", "leadtime", "leadtime", "location", "lat", "lon", "altitude"])
+            d1, v1, a1 = table_to_nc(punch_coords(T, rng, [one]), rng)
+            if text_expressible(table_of(d1, v1, a1)):
+                yield "nc.text", "nctext %d %s" % (rng.randrange(10 ** 6), enc_nc(d1, v1, a1))
         if k % 10 == 0:
             # malformed: a required dimension or variable is absent
             drop = rng.choice(["dim:location", "dim:leadtime", "dim:time", "var:time", "var:leadtime"])
